@@ -42,6 +42,7 @@ type histProfile struct {
 	nonceOff                                   int  // 1 in n histories disables the nonce check
 	badDatr                                    bool // gateways sometimes report an unknown data-rate string
 	maxSubmit                                  int  // largest queued payload (0: up to 230, beyond some data rates' limit)
+	sameTs                                     bool // receptions with identical receive time (the inbox key): the later one is refused by the store
 }
 
 var datrs = []string{"SF12BW125", "SF11BW125", "SF10BW125", "SF9BW125", "SF8BW125", "SF7BW125", "SF7BW250", "FSKBW500"}
@@ -70,6 +71,7 @@ type histRunner struct {
 	gws       []uint64
 	tags      map[string]int
 	badDatr   bool
+	sameTs    bool
 	lastValid map[int][]byte
 }
 
@@ -91,7 +93,9 @@ func (h *histRunner) dumpAll() string {
 
 // run one rx event on the real pipeline and record event + observation
 func (h *histRunner) rx(raw []byte, tag string) {
-	h.ts += 1000
+	if h.ts == 0 || !h.sameTs || h.rng.Intn(12) != 0 { // (C09 profile) now and then two receptions carry the same receive time: the second cannot be stored
+		h.ts += 1000
+	}
 	gw := h.gws[h.rng.Intn(len(h.gws))]
 	datr := datrs[h.rng.Intn(len(datrs))]
 	if h.badDatr && h.rng.Intn(25) == 0 {
@@ -300,7 +304,7 @@ func runHistory(rng *rand.Rand, prof histProfile, w *Writer, suite string) {
 	}
 	world := newWorld(opts)
 	defer world.close()
-	h := &histRunner{w: world, rng: rng, tags: w.Stats, lastValid: map[int][]byte{}, badDatr: prof.badDatr}
+	h := &histRunner{w: world, rng: rng, tags: w.Stats, lastValid: map[int][]byte{}, badDatr: prof.badDatr, sameTs: prof.sameTs}
 	h.gws = []uint64{genEUI(rng), genEUI(rng)}
 	napps := 1 + rng.Intn(2)
 	for i := 0; i < napps; i++ {
@@ -551,7 +555,7 @@ var profiles = map[string]histProfile{
 	"C07": {badDatr: true, name: "C07", wUplink: 8, wCorrupt: 1, wJoin: 2, wSubmit: 3, wReplay: 1, maxDevs: 2, minEv: 10, maxEv: 30, confirmedOnly: true},
 	"C08": {maxSubmit: 59, name: "C08", wUplink: 9, wCorrupt: 1, wJoin: 0, wSubmit: 5, wReplay: 1, maxDevs: 3, minEv: 12, maxEv: 30},
 	"C10": {maxSubmit: 40, name: "C10", wUplink: 5, wCorrupt: 0, wJoin: 1, wSubmit: 3, wReplay: 2, wCrash: 6, maxDevs: 1, minEv: 8, maxEv: 20},
-	"C09": {name: "C09", wUplink: 8, wCorrupt: 2, wJoin: 1, wSubmit: 3, wReplay: 3, maxDevs: 2, minEv: 10, maxEv: 30},
+	"C09": {sameTs: true, name: "C09", wUplink: 8, wCorrupt: 2, wJoin: 1, wSubmit: 3, wReplay: 3, maxDevs: 2, minEv: 10, maxEv: 30},
 }
 
 func histSuite(name string, quickN, thoroughN int) suiteFunc {
